@@ -428,7 +428,25 @@ func runC08Extract(c *fw.Case) {
 			}
 			continue
 		}
-		// in place: a re-run completes with correct output and does not fetch again what was already written
+		// in place: a re-run completes with correct output and does not fetch again what was already written. What was
+		// written is read off the file itself: an id is settled when every range the index gives it already holds its
+		// bytes (with several workers the dead run leaves such ranges behind the first missing one as well)
+		settled := map[string]bool{}
+		if now, rerr := os.ReadFile(out); rerr == nil {
+			bad := map[string]bool{}
+			for _, ch := range pb.idx.Chunks {
+				s := ch.ID.String()
+				path := "/" + s[:4] + "/" + s + ".cacnk"
+				if int(ch.Start+ch.Size) <= len(now) && bytes.Equal(now[ch.Start:ch.Start+ch.Size], pb.blob[ch.Start:ch.Start+ch.Size]) {
+					settled[path] = true
+				} else {
+					bad[path] = true
+				}
+			}
+			for p := range bad {
+				delete(settled, p)
+			}
+		}
 		g2 := serve()
 		if g2 == nil {
 			return
@@ -445,16 +463,11 @@ func runC08Extract(c *fw.Case) {
 			c.Violate("rerun-failed", "desync extract --in-place", "after a kill at request %d of %d the re-run exits %d and output equal=%v: %s", k, total, res2.exit, bytes.Equal(got, pb.blob), res2.output)
 			return
 		}
-		if n == "1" {
-			done := map[string]bool{}
-			for _, p := range served[:len(served)-1] { // all but the held one were written before the next was requested
-				done[p] = true
-			}
-			for _, p := range again {
-				if done[p] {
-					c.Violate("refetched-written-chunk", "desync extract --in-place", "after a kill at request %d of %d the re-run fetched %s again although its range had been written", k, total, p)
-					return
-				}
+		_ = served
+		for _, p := range again {
+			if settled[p] {
+				c.Violate("refetched-written-chunk", "desync extract --in-place", "after a kill at request %d of %d (n=%s) the re-run fetched %s again although every range of that chunk already held its bytes", k, total, n, p)
+				return
 			}
 		}
 	}
